@@ -93,7 +93,7 @@ func c12DBVals() []c12Val {
 }
 
 func c12RawVals() []c12Val {
-	return []c12Val{{"raw-0", nil}, {"raw-1", []byte{0x41}}, {"raw-5", fill(5, 0x30)}, {"raw-40", fill(40, 0x61)}}
+	return []c12Val{{"raw-0", nil}, {"raw-1", []byte{0x41}}, {"raw-5", fill(5, 0x30)}, {"raw-40", fill(40, 0x61)}, {"raw-600", fill(600, 0x62)}, {"raw-40000", fill(40000, 0x63)}}
 }
 
 type c12Op struct {
@@ -177,7 +177,7 @@ func init() {
 	hx.Register(&hx.Prop{
 		ID:    "C12",
 		Level: "model_checking",
-		Rule: "explicit-state search over write histories on the real in-memory store (testfs): alphabet = WriteVar / WriteSignedUpdate x {db, PK, ordinary variable (quick); + KEK, dbx (thorough)} x values ordered by size {empty, 1-entry, 3-entry, 2-list database; raw 0/1/5/40 bytes}, " +
+		Rule: "explicit-state search over write histories on the real in-memory store (testfs): alphabet = WriteVar / WriteSignedUpdate x {db, PK, ordinary variable (quick); + KEK, dbx (thorough)} x values ordered by size {empty, 1-entry, 3-entry, 2-list database; raw 0/1/5/40/600/40000 bytes}, " +
 			"from an empty and a pre-populated store; a state is the complete content of the store, reached by replay on a fresh instance, deduplicated exactly; the search runs to the depth bound or to the fixpoint. In every state every variable is read back (raw reader, typed accessor) and compared with the reference register model (value of the most recent write, descriptor removed for signed secure-boot writes; never-written => error)",
 		Assumptions: []string{"frozen clock (vtime) and memoised deterministic PKCS#1 v1.5 signatures make replays byte-identical", "register model: map variable -> last written value"},
 		Units:       func(tier string) []string { return []string{"empty-store", "prepopulated-store"} },
